@@ -454,7 +454,7 @@ theorem invL_step (c0 : Cfg) (hne : c0.incoming ≠ [] ∨ c0.outgoing ≠ []) (
       simp only [Event.cfgOk] at hc
       subst hc
       have hall : ∀ x ∈ q, (⟨(s.nodes i).term, x, i⟩ : Grant) ∈ s.grants := by
-        have := hg.2.2.2.2.2
+        have := hg.2.2.2.2.2.1
         simp only [List.all_eq_true, List.contains_iff_mem] at this
         exact this
       exact invL_win cfg hne s hV hI i q hg.2.1 hg.2.2.2.1 hall
